@@ -165,27 +165,28 @@ func (e *BinaryOpExpr) execEqualBatch(chunk []KVPair, not bool, ctx *ExecuteCtx)
 	if err != nil {
 		return nil, err
 	}
-	var (
-		isStr  = false
-		isInt  = false
-		isBool = false
-	)
 	if len(chunk) == 0 {
 		return nil, nil
 	}
 
-	switch rleft[0].(type) {
-	case string, []byte:
-		isStr = true
-	case int, int8, int16, int32, int64, uint, uint8, uint16, uint32, uint64, float32, float64:
-		isInt = true
-	case bool:
-		isBool = true
-	default:
-		return nil, NewExecuteError(e.GetPos(), "= operator left expression has wrong type")
-	}
-
 	for i := 0; i < len(chunk); i++ {
+		// The kind of the operands is decided row by row, same as the row
+		// form: a dynamically typed column may change its kind inside a chunk
+		var (
+			isStr  = false
+			isInt  = false
+			isBool = false
+		)
+		switch rleft[i].(type) {
+		case string, []byte:
+			isStr = true
+		case int, int8, int16, int32, int64, uint, uint8, uint16, uint32, uint64, float32, float64:
+			isInt = true
+		case bool:
+			isBool = true
+		default:
+			return nil, NewExecuteError(e.GetPos(), "= operator left expression has wrong type")
+		}
 		if isStr {
 			left, lok := convertToByteArray(rleft[i])
 			right, rok := convertToByteArray(rright[i])
